@@ -899,6 +899,29 @@ func (e *Env) call(x *ECall) TV {
 				e.fail("%v", err)
 			}
 			return TV{T: t, Ty: ty}
+		case "acontent": // acontent(a, n): the first n bytes of array value a as an abstract byte string
+			a, n := e.eval(x.Args[0]), e.eval(x.Args[1])
+			t := fmt.Sprintf("(bcontent %s 0 %s)", a.T, n.T)
+			// bounded extensionality: the content is a function of the first n elements only
+			// (congruence of the pack function then equates contents of pointwise-equal arrays)
+			var cnt int
+			if _, err := fmt.Sscanf(n.T, "%d", &cnt); err == nil && cnt > 0 && cnt <= 64 && fmt.Sprint(cnt) == n.T {
+				pack := q(fmt.Sprintf("bpack:%d", cnt))
+				vc.pre.declFun(pack, "("+strings.TrimSpace(strings.Repeat("Int ", cnt))+") Bytes")
+				var els []string
+				for i := 0; i < cnt; i++ {
+					els = append(els, fmt.Sprintf("(select %s %d)", a.T, i))
+				}
+				e.addSide(fmt.Sprintf("(= %s (%s %s))", t, pack, strings.Join(els, " ")))
+			}
+			return TV{T: t, Ty: bytesT}
+		case "arr": // arr(v0, v1, ...): a byte array literal
+			t := types.NewArray(types.Typ[types.Uint8], int64(len(x.Args)))
+			term := vc.pre.zeroOf(t)
+			for i, a := range x.Args {
+				term = fmt.Sprintf("(store %s %d %s)", term, i, e.eval(a).T)
+			}
+			return TV{T: term, Ty: t}
 		case "emptyset":
 			t, err := vc.P.resolveType(typeText(x.Args[0]), e.pkgPath)
 			if err != nil {
